@@ -38,6 +38,10 @@ func pow10(n int) *big.Int {
 
 // ToString converts a big decimal with the specified precision to a string.
 func ToString(bi *big.Int, precision int) string {
+	if bi.Sign() < 0 {
+		// The integer part of a value between -1 and 0 is zero, it can't carry the sign.
+		return "-" + ToString(new(big.Int).Neg(bi), precision)
+	}
 	var dp, fp big.Int
 	dp.QuoRem(bi, pow10(precision), &fp)
 
@@ -73,7 +77,7 @@ func FromString(s string, precision int) (*big.Int, error) {
 		return nil, ErrInvalidFormat
 	}
 	fp.Mul(fp, pow10(precision-len(parts[1])))
-	if bi.Sign() == -1 {
+	if bi.Sign() == -1 || strings.HasPrefix(parts[0], "-") { // "-0.5" has zero integer part.
 		return bi.Sub(bi, fp), nil
 	}
 	return bi.Add(bi, fp), nil
